@@ -300,12 +300,26 @@ Theorem build_follows_source_dispatch : forall (T : Type) (N : Num T) (vt : vari
   ring_theory nzero none_ nadd nmul nsub nopp (@eq T) ->
   (forall u c : T, ndiv u c = nmul (ndiv none_ c) u) ->
   (forall a b : T, neqb a b = true -> a = b) ->
-  v_real_shortcut vt = real_shortcut_of_table ->
   forall s : sexpr T, sleaves_ok s -> build vt s = build_tab vt s.
-Proof. exact (fun T N vt Rth Hdiv Heqb Hrs => @DispatchProofs.build_eq_tab T N vt Hrs Rth Hdiv Heqb). Qed.
+Proof. exact @DispatchProofs.build_eq_tab. Qed.
 Print Assumptions build_follows_source_dispatch.
 
 (* `@` is `*`: the regenerated __matmul__ / __rmatmul__ trees just delegate *)
 Theorem matmul_is_mul : forall (T : Type) (N : Num T) (vt : variant) (a : oexpr T) (other : operand),
   py_matmul vt a other = py_mul vt a other /\ py_rmatmul vt a other = py_rmul vt a other.
 Proof. intros; split; reflexivity. Qed.
+
+(* Regression statement for fix 52720c8.  The live rule (C04/Model.mul_c, proved equal to the
+   regenerated Operator.__mul__ tree): A*a is rewritten to a*A only when A.is_linear AND a is of a
+   real Python type.  Why the older rule (every scalar of the range field) was wrong: for an
+   operator that is only real-linear -- here the imaginary part on C^1, additive and homogeneous
+   for real scalars -- and the complex scalar i, the two objects have different values. *)
+Theorem complex_shortcut_old_rule_refuted :
+  let i : RC := (0%R, 1%R) in let x : list RC := [(1%R, 0%R)] in
+  eval (OLScal false (OLeaf im_leaf) i) x <> eval (ORScal false (OLeaf im_leaf) i) x.
+Proof. exact complex_shortcut_old_rule_refuted_RC. Qed.
+Theorem complex_shortcut_witness_is_real_linear :
+  (forall (r : R) (x : list RC), l_fun im_leaf (vscal (r, 0%R) x) = vscal (r, 0%R) (l_fun im_leaf x))
+  /\ (forall x y : list RC, length x = length y ->
+        l_fun im_leaf (vadd x y) = vadd (l_fun im_leaf x) (l_fun im_leaf y)).
+Proof. exact im_leaf_real_linear. Qed.
